@@ -2,6 +2,7 @@ package props
 
 import (
 	"fmt"
+	"regexp"
 	"sort"
 	"strconv"
 	"strings"
@@ -32,7 +33,7 @@ func (c20) NumCases(tier string) int {
 	return c20ShortHistories() + 12000
 }
 
-var c20Ordinary = []string{"x", "X", "_y1", "IFS", "HOME"}
+var c20Ordinary = []string{"x", "X", "_y1", "IFS", "HOME", "x0", "v10"}
 var c20Special = []string{"@", "*", "#", "?", "-", "!", "0"}
 var c20Positional = []string{"1", "2", "9", "10", "11", "00", "01", "000", "9223372036854775808", "99999999999999999999"}
 var c20Values = []string{"", "0", "1", "7", "42", "-3", "abc", "a b", "08", " ", "é"}
@@ -89,7 +90,7 @@ func (c20) build(src *gen.Source) *Case {
 	nargs := src.Intn(4)
 	c.Args = []string{"sh"}
 	for i := 0; i < nargs; i++ {
-		c.Args = append(c.Args, src.Pick([]string{"p1", "", "p 3", "4"}))
+		c.Args = append(c.Args, src.Pick([]string{"p1", "", "p 3", "4", "40", "7"}))
 	}
 	if src.Chance(1, 6) {
 		for len(c.Args) < 12 {
@@ -152,11 +153,11 @@ func (c20) build(src *gen.Source) *Case {
 			}
 			op = Op{Op: "expand", Name: nm, Value: strings.ReplaceAll(tmpl, "W", src.Pick(c20Words)), Mode: []uint{0, uint(interp.Quote), 0, uint(interp.Literal), uint(interp.Pattern), uint(interp.Assign), uint(interp.Arith), 0}[src.Intn(8)]}
 		case 9, 10:
-			tmpl := src.Pick([]string{"$((N=K))", "$((N+=K))", "$((N++))", "$((--N))", "$((N-=K))", "$((N*=K))", "$((1/0))", "$((08))", "$((N+1/0))", "$((N N))", "$((N))", "$((N+K))", "$((N+=M))", "$((N*=M))", "$((N=M))", "$((N-=M))"})
+			tmpl := src.Pick([]string{"$((N=K))", "$((N+=K))", "$((N++))", "$((--N))", "$((N-=K))", "$((N*=K))", "$((1/0))", "$((08))", "$((N+1/0))", "$((N N))", "$((N))", "$((N+K))", "$((N+=M))", "$((N*=M))", "$((N=M))", "$((N-=M))", "$((N=$1))", "$((N=${2}+1))"})
 			tmpl = strings.ReplaceAll(tmpl, "M", src.Pick([]string{"_y1", "X", "HOME"}))
 			op = Op{Op: "expand", Name: src.Pick(c20Ordinary), Value: strings.ReplaceAll(tmpl, "K", src.Pick([]string{"0", "1", "5", "12"}))}
 		default:
-			tmpl := src.Pick([]string{"N=K", "N+=K", "N++", "--N", "1/0", "N N", "N", "(N=K)+1", "N+=M", "N*=M", "N=M", "--N + --N", "N++ + N", "--N * 0 + N++", "++N + N--", "N += N"})
+			tmpl := src.Pick([]string{"N=K", "N+=K", "N++", "--N", "1/0", "N N", "N", "(N=K)+1", "N+=M", "N*=M", "N=M", "--N + --N", "N++ + N", "--N * 0 + N++", "++N + N--", "N += N", "M = (N = 5) + (N = 7)", "(N = 2) + (N = 3)"})
 			tmpl = strings.ReplaceAll(tmpl, "M", src.Pick([]string{"_y1", "X", "HOME"}))
 			op = Op{Op: "eval", Name: src.Pick(c20Ordinary), Value: strings.ReplaceAll(tmpl, "K", src.Pick([]string{"0", "1", "5", "12"}))}
 		}
@@ -301,6 +302,24 @@ func (m *c20Model) arithPlan(expr, name string) (plan string, value string) {
 	}
 	v, _ := m.get(name)
 	cur, curKind := classify(v)
+	// a positional parameter as operand: $N inside $(( )) stands for its VALUE
+	if m2 := regexp.MustCompile(`^` + regexp.QuoteMeta(name) + `=\$\{?([12])\}?(\+1)?$`).FindStringSubmatch(expr); m2 != nil {
+		pv, pset := m.get(m2[1])
+		if !pset {
+			return "skip", ""
+		}
+		n, ok := cleanInt(pv)
+		if !ok || pv == "" {
+			return "skip", "" // a non-numeric positional value: what the evaluator makes of it is C11/C13's business
+		}
+		if m2[2] != "" {
+			n++
+		}
+		return "apply", strconv.Itoa(n)
+	}
+	if expr == "("+name+" = 2) + ("+name+" = 3)" {
+		return "apply", "3"
+	}
 	// several uses of the variable in one evaluation: the net effect on the store
 	multi := map[string]int{"--N + --N": -2, "N++ + N": 1, "--N * 0 + N++": 0, "++N + N--": 0}
 	for pat, delta := range multi {
@@ -492,6 +511,23 @@ func (p c20) Run(t *testing.T, c *Case, s Sched, keepLog bool) *Obs {
 				env.Opts = interp.Option(op.Opts)
 				m.opts = op.Opts
 			case "eval":
+				if mm := regexp.MustCompile(`^(\w+) = \((\w+) = 5\) \+ \((\w+) = 7\)$`).FindStringSubmatch(op.Value); mm != nil && mm[2] == mm[3] {
+					// two assignments to one variable inside one expression: the last value set stays, the sum is 12
+					sim.Yield(gosim.PCallerMark)
+					n, err := env.Eval(op.Value)
+					parts = append(parts, fmt.Sprintf("eval %q n=%d %s", op.Value, n, DumpErr(err)))
+					if err != nil {
+						add("unexpected-eval-error", fmt.Sprintf("%s: %v", desc, err))
+					} else {
+						m.vars[mm[2]] = "7"
+						m.vars[mm[1]] = "12"
+						if mm[1] == mm[2] {
+							m.vars[mm[1]] = "12"
+						}
+						live.Assigns++
+					}
+					break
+				}
 				plan, val := m.arithPlan(op.Value, op.Name)
 				if plan == "skip" {
 					parts = append(parts, "skip")
